@@ -34,8 +34,12 @@ def do_replay(prop, path, verify):
         env["PYTHONHASHSEED"] = str(hs)
         sys.stdout.flush()
         os.execve(os.path.join(core.VERIF, "check"), [os.path.join(core.VERIF, "check")] + sys.argv[1:], env)
-    engine = checks.engine_for_trace(prop, trace)
-    out = engine.execute(trace)
+    if trace.get("hang"):
+        core.attach_repo()
+        out = core.execute_trace(None, trace)
+    else:
+        engine = checks.engine_for_trace(prop, trace)
+        out = engine.execute(trace)
     expect = trace.get("expect", {})
     sigs = [v["sig"] for v in out["violations"]]
     print("replay %s: engine=%s digest=%s" % (path, trace.get("engine"), out["digest"]))
